@@ -233,7 +233,19 @@ pub fn slice(value: Value, start: Value, stop: Value, step: Value) -> Result<Val
             }
 
             if step > 0 {
-                let len = obj.enumerator_len().unwrap_or_default();
+                let Some(len) = obj.enumerator_len() else {
+                    // without a known length the bounds can only be resolved
+                    // against the materialized items.
+                    return Ok(Value::make_object_iterable(obj, move |obj| {
+                        if let Some(iter) = obj.try_iter() {
+                            let vec: Vec<Value> = iter.collect();
+                            let (start, len) = get_offset_and_len(start, stop, || vec.len());
+                            Box::new(vec.into_iter().skip(start).take(len).step_by(step as usize))
+                        } else {
+                            Box::new(None.into_iter())
+                        }
+                    }));
+                };
                 let (start, len) = get_offset_and_len(start, stop, || len);
                 Ok(Value::make_object_iterable(obj, move |obj| {
                     if let Some(iter) = obj.try_iter() {
